@@ -58,6 +58,7 @@ RULE = (
     "round-robin / starve-one / burst, eager or lazy suggest, integer-grid or continuous objective tables, "
     "early completions; in 40% of the schedules half or all trials are sparse reporters (every 2nd/3rd/5th level, "
     "first report at a later level) and in a third some self-ending trials complete with a final result at a new level; "
+    "in 60% of the schedules 10-30% of the trials fail (on_trial_error) at a random point after >= 1 report; "
     "report dicts in canonical key order, all reversed, a fixed shuffled order per trial, or "
     "re-shuffled per report with the resource attribute and extra keys interleaved; per-objective scales/offsets so "
     "that permuted coordinates change the vector). Distinct = digest of the (trial, level, decision) sequence; non-trivial = at least "
@@ -79,6 +80,7 @@ ASSUMPTIONS = [
     "from the scheduler after on_trial_add; the priority object is observed through a recording subclass",
     "rank-rule verdicts use the priority vector the priority object returned; the Pareto-layer clause is "
     "only decided when every layer-consistent ranking agrees on the verdict",
+    "a trial that fails (on_trial_error) after it was recorded at rungs stays one of 'all trials recorded at that rung'",
     "priority recomputation tolerance: 16 eps relative to the largest |weighted objective| of the row",
     "a trial's objective vector is defined by metric NAME in the order of the ``metrics`` argument; the key order "
     "of a result dict (and extra keys in it) carries no meaning",
@@ -164,6 +166,16 @@ def floors(tier):
         "decided:rung_rank_against_entry_recorded_at_completion": 250 if q else 6000,
         "decided:rung_rank_against_entry_recorded_at_completion:max_mode": 120 if q else 3000,
         "decided:rung_rank_against_entry_recorded_at_completion:min_mode": 60 if q else 1500,
+        # failing trials (on_trial_error after they recorded at rungs): their records stay in the rung
+        "trials_failed_after_recording_at_a_rung": 200 if q else 5000,
+        "decided:rung_rank_with_record_of_failed_trial": 400 if q else 10000,
+        "decided:rung_rank_with_record_of_failed_trial:STOP": 150 if q else 4000,
+        "decided:rung_rank_with_record_of_failed_trial:bracket>=1": 40 if q else 1000,
+        "decided:rung_rank_with_record_of_failed_trial:linear": 50 if q else 1200,
+        "decided:rung_rank_with_record_of_failed_trial:fixed": 50 if q else 1200,
+        "decided:rung_rank_with_record_of_failed_trial:default": 50 if q else 1200,
+        "decided:rung_rank_with_record_of_failed_trial:nd": 40 if q else 1000,
+        "decided:rung_rank_where_record_of_failed_trial_is_decisive": 40 if q else 1000,
     }
 
 
@@ -566,6 +578,9 @@ def _moasha_params(spec):
     # levels; trials ending by themselves whose completion carries a final result at a new level
     P["sparse"] = 0.0 if plain else rng2.choice([0.0, 0.0, 0.0, 0.5, 1.0])
     P["complete_new"] = 0.0 if plain else rng2.choice([0.0, 0.0, 0.5])
+    # failing trials: a fraction of the trials fails (Tuner -> scheduler.on_trial_error) at a random point after
+    # at least one report; what they recorded at rungs stays part of "all trials recorded at that rung"
+    P["fail_frac"] = 0.0 if plain else rng2.choice([0.0, 0.0, 0.1, 0.2, 0.3])
     if not plain and P["sparse"] > 0 and rng2.random() < 0.7:
         P["early"] = rng2.choice([0.3, 0.6, 0.8])
     if "override" in spec:
@@ -752,6 +767,7 @@ def _drive(o, P, spec, sched, calls, script, judge, signs, table_signs, canonica
     milestones = {}  # bidx -> sorted list of rung levels (reference: documented formula)
     own_levels = {}  # bidx -> the scheduler's own list (read-only probe)
     recorded = {}  # (bidx, milestone) -> list of (tid, signed vector)
+    failed = set()  # trials that failed (on_trial_error)
     started = 0
     rr = 0
     burst = [None, 0]
@@ -873,6 +889,12 @@ def _drive(o, P, spec, sched, calls, script, judge, signs, table_signs, canonica
                         break
                     lv += stride
                 # completion with a final result at a new level (not passed to on_trial_result before)
+                fail_at = None  # the trial fails instead of making its report number fail_at (0-based), >= 1
+                frng = random.Random(spec["seed"] * 17 + tid * 7 + 3)
+                if frng.random() < P.get("fail_frac", 0.0) and len(levels) >= 2:
+                    fail_at = frng.randint(1, min(len(levels) - 1, 1 + frng.choice([0, 1, 2, 4, 8])))
+                if str(tid) in (spec.get("fail_at") or {}):
+                    fail_at = int(spec["fail_at"][str(tid)])
                 final_extra = None
                 if lrng.random() < P.get("complete_new", 0.0) and levels[-1] + stride + off < max_t:
                     final_extra = levels[-1] + stride
@@ -880,7 +902,7 @@ def _drive(o, P, spec, sched, calls, script, judge, signs, table_signs, canonica
                     final_extra = int(spec["final_extra"][str(tid)])
                 curve = _curve(P, spec, tid, max(levels[-1], final_extra or 0))
                 info[tid] = {"trial": trial, "idx": 0, "levels": levels, "curve": curve, "bidx": bidx,
-                             "final_extra": final_extra, "sparse": stride > 1 or first > 1}
+                             "final_extra": final_extra, "sparse": stride > 1 or first > 1, "fail_at": fail_at}
                 if judge and (stride > 1 or first > 1):
                     o.count("trials_sparse_reporter")
                 running.append(tid)
@@ -892,6 +914,19 @@ def _drive(o, P, spec, sched, calls, script, judge, signs, table_signs, canonica
             # ------------------------------------------------------------ a report
             tid = act
             ti = info[tid]
+            if ti["fail_at"] is not None and ti["idx"] == ti["fail_at"]:
+                # the trial fails: the Tuner signals on_trial_error and the trial is gone; nothing is decided,
+                # and what the trial recorded at rungs before stays recorded (reference keeps it)
+                call("on_trial_error", sched.on_trial_error, ti["trial"])
+                running.remove(tid)
+                failed.add(tid)
+                decisions.append((tid, "failed", None))
+                if judge:
+                    o.ev("failed", tid, "after_level", ti["levels"][ti["idx"] - 1])
+                    o.count("trials_failed")
+                    if any(x[0] == tid for ent in recorded.values() for x in ent):
+                        o.count("trials_failed_after_recording_at_a_rung")
+                continue
             level = ti["levels"][ti["idx"]]
             ti["idx"] += 1
             t = level + off
@@ -913,7 +948,7 @@ def _drive(o, P, spec, sched, calls, script, judge, signs, table_signs, canonica
             decisions.append((tid, level, dec))
             if judge:
                 o.ev("report", tid, level, raw, "->", dec, exp[0], exp[1])
-                ctx = {"bracket": bidx, "skipped": skipped}
+                ctx = {"bracket": bidx, "skipped": skipped, "failed": failed}
                 if exp[1] is not None:
                     below = [m for m in milestones[bidx] if m < max_t]
                     ctx["top_rung"] = bool(below) and exp[1] == below[-1]
@@ -950,7 +985,7 @@ def _drive(o, P, spec, sched, calls, script, judge, signs, table_signs, canonica
                             o.count("decided:completion_records_new_entry")
                             if any(x < 0 for x in signs):
                                 o.count("decided:completion_records_new_entry:max_mode")
-                            cctx = {"bracket": bidx, "skipped": c_skipped, "completion": True,
+                            cctx = {"bracket": bidx, "skipped": c_skipped, "completion": True, "failed": failed,
                                     "level_known_to_scheduler": c_exp[1] in own_levels.get(bidx, [])}
                             _judge_report(o, P, c_exp, None, c_t, c_svec, c_raw, signs,
                                           recorded.get((bidx, c_exp[1]), []), c_calls, inv_rf, c_korder, cctx)
@@ -1018,9 +1053,13 @@ def _judge_report(o, P, exp, dec, t, svec, raw, signs, entries, new_calls, inv_r
         wit["metric_key_order_of_each_report"] = [list(ko) for ko in korders]
     sfx = ":on_trial_complete" if completion else ""
     via_complete = [len(e) > 3 and e[3] == "complete" for e in entries]
+    of_failed = [e[0] in ctx.get("failed", ()) for e in entries]
+    if any(of_failed):
+        wit["rows_recorded_by_trials_that_failed_later"] = [i for i, f in enumerate(of_failed) if f]
     if not new_calls:
         _violate(o, "rung_rank_rule", "rung_decision_without_priority_evaluation" + sfx + (
-            "" if ctx.get("level_known_to_scheduler", True) else ":level_grace*rf^(k+s)_missing_from_bracket"), wit)
+            "" if ctx.get("level_known_to_scheduler", True) else ":level_grace*rf^(k+s)_missing_from_bracket") + (
+            ":only_failed_trials_recorded_at_rung" if all(of_failed) else ""), wit)
         p_used = None
     else:
         # one report is ranked at one rung only: the first rung from the top it newly reaches
@@ -1038,11 +1077,12 @@ def _judge_report(o, P, exp, dec, t, svec, raw, signs, entries, new_calls, inv_r
             o.count("decided:matrix_rows_with_max_mode", n)
         M2 = np.array(M, dtype=float)
         if M2.shape != (n, d):
-            _violate(o, 
-                "rung_entries",
-                "objective_matrix:" + ("row_count_differs_from_trials_recorded_at_rung" if M2.ndim == 2 and M2.shape[1] == d else "shape"),
-                wit,
-            )
+            mech = "objective_matrix:" + ("row_count_differs_from_trials_recorded_at_rung" if M2.ndim == 2 and M2.shape[1] == d else "shape")
+            if any(of_failed) and M2.ndim == 2 and M2.shape[1] == d:
+                alive = [tuple(Mref[i].tolist()) for i in range(n - 1) if not of_failed[i]] + [tuple(Mref[-1].tolist())]
+                if sorted(map(tuple, M2.tolist())) == sorted(alive):
+                    mech = "objective_matrix:records_of_failed_trials_missing_from_rung"
+            _violate(o, "rung_entries", mech + sfx, wit)
         else:
             if noncanon:
                 o.count("decided:matrix_rows_noncanonical_key_order", int(sum(ko != ident for ko in korders)))
@@ -1117,6 +1157,17 @@ def _judge_report(o, P, exp, dec, t, svec, raw, signs, entries, new_calls, inv_r
         o.count("decided:rung_rank_after_skipped_rung")
         o.count("decided:rung_rank_after_skipped_rung" + mtag)
         o.count("decided:rung_rank_after_skipped_rung:" + expected)
+    if any(of_failed):
+        o.count("decided:rung_rank_with_record_of_failed_trial")
+        o.count("decided:rung_rank_with_record_of_failed_trial:" + P["prio"]["kind"])
+        o.count("decided:rung_rank_with_record_of_failed_trial:" + expected)
+        if ctx.get("bracket", 0) >= 1:
+            o.count("decided:rung_rank_with_record_of_failed_trial:bracket>=1")
+        # is the failed trial's record decisive? (rank rule without those rows gives the other verdict)
+        keep = [i for i in range(n - 1) if not of_failed[i]] + [n - 1]
+        cnt2 = int((p[keep] < p[-1]).sum())
+        if (Fraction(cnt2, len(keep)) <= inv_rf) != (frac <= inv_rf):
+            o.count("decided:rung_rank_where_record_of_failed_trial_is_decisive")
     if any(via_complete):
         o.count("decided:rung_rank_against_entry_recorded_at_completion")
         o.count("decided:rung_rank_against_entry_recorded_at_completion" + mtag)
